@@ -8,6 +8,10 @@ import (
 	"fmt"
 	"math"
 	"math/rand"
+	"os"
+	"path/filepath"
+	"strconv"
+	"strings"
 
 	"github.com/evolbioinfo/goalign/align"
 )
@@ -91,6 +95,67 @@ func runSW(env *Env, id string, c swCase) {
 	env.Emit(ev)
 }
 
+// swCli asks the same alignment of `goalign sw` (two sequences in a FASTA file; the rows come from the output, the
+// positions, counts and score from the log file).
+func swCli(dir, id string, c swCase) (ev swEvent, ok bool) {
+	ev = swEvent{ID: id + ":cli", S1: c.S1, S2: c.S2, Sch: c.Sch, Algo: "sw"}
+	ev.Obs = swObs{R1: []int{}, R2: []int{}, After1: c.S1, After2: c.S2}
+	for _, s := range [][]int{c.S1, c.S2} {
+		if len(s) == 0 || !printable(i2b(s)) {
+			return ev, false
+		}
+	}
+	in, out, lg := filepath.Join(dir, "sw_in.fa"), filepath.Join(dir, "sw_out.fa"), filepath.Join(dir, "sw_log.txt")
+	os.Remove(out)
+	os.Remove(lg)
+	if os.WriteFile(in, []byte(fmt.Sprintf(">s1\n%s\n>s2\n%s\n", string(i2b(c.S1)), string(i2b(c.S2)))), 0o644) != nil {
+		return ev, false
+	}
+	half := func(x int) string { return strconv.FormatFloat(float64(x)/2, 'g', -1, 64) }
+	argv := []string{"sw", "-i", in, "-o", out, "-l", lg, "--gap-open=" + half(c.Sch.Open), "--gap-extend=" + half(c.Sch.Ext)}
+	if c.Sch.Mode == "scores" {
+		argv = append(argv, "--match="+half(c.Sch.Match), "--mismatch="+half(c.Sch.Mismatch))
+	}
+	_, errs, rc := runGoalign(nil, argv...)
+	ev.Msg = "goalign " + strings.Join(argv, " ")
+	if rc != 0 {
+		ev.Kind, ev.Msg = cliKind(errs), ev.Msg+": "+strings.SplitN(errs, "\n", 2)[0]
+		return ev, true
+	}
+	ob, _ := os.ReadFile(out)
+	rows := fastaMap(string(ob))
+	lb, _ := os.ReadFile(lg)
+	num := map[string][]float64{}
+	for _, l := range strings.Split(string(lb), "\n") {
+		k := strings.Index(l, ":")
+		if k < 0 {
+			continue
+		}
+		for _, f := range strings.Split(strings.TrimSpace(l[k+1:]), ",") {
+			if v, err := strconv.ParseFloat(f, 64); err == nil {
+				num[l[:k]] = append(num[l[:k]], v)
+			}
+		}
+	}
+	need := map[string]int{"Query Start,End": 2, "Subject Start,End": 2, "Align length": 1, "Align Score": 1, "Align Matches": 1, "Align Mismatches": 1, "Align Gaps": 1}
+	for k, n := range need {
+		if len(num[k]) != n {
+			return ev, false
+		}
+	}
+	o := &ev.Obs
+	o.R1, o.R2 = s2i(rows["s1"]), s2i(rows["s2"])
+	o.St1, o.E1, o.St2, o.E2 = int(num["Query Start,End"][0]), int(num["Query Start,End"][1]), int(num["Subject Start,End"][0]), int(num["Subject Start,End"][1])
+	o.Len, o.Nm, o.Nmm, o.Ng = int(num["Align length"][0]), int(num["Align Matches"][0]), int(num["Align Mismatches"][0]), int(num["Align Gaps"][0])
+	sc := num["Align Score"][0] * 2
+	if sc != math.Trunc(sc) {
+		return ev, false
+	}
+	o.Score = int(sc)
+	ev.Kind = "ok"
+	return ev, true
+}
+
 func swFamily(env *Env) error {
 	n := 0
 	err := env.Cases(func(line []byte) error {
@@ -163,10 +228,25 @@ func swFamily(env *Env) error {
 			c.S1 = append(c.S1, 'Q')
 			c.S2 = append([]int{'E'}, c.S2...)
 		}
+		if c.Sch.Mode == "prot" && rng.Intn(3) == 0 {
+			// one of the two proteins written with letters that are also nucleotide codes only
+			amb := []byte("ACGTNRYSWKMBDHV")
+			for k := range c.S2 {
+				c.S2[k] = int(amb[rng.Intn(len(amb))])
+			}
+		}
+		if c.Sch.Mode == "scores" && rng.Intn(6) == 0 {
+			c.Sch.Match, c.Sch.Mismatch = 2, -2 // 1 / -1: the values the command line has as defaults
+		}
 		if rng.Intn(2) == 0 {
 			c.S1, c.S2 = c.S2, c.S1
 		}
 		runSW(env, fmt.Sprintf("r%d_%d", env.Seed, i), c)
+		if cliSampled(i) {
+			if ce, ok := swCli(filepath.Dir(env.Out), fmt.Sprintf("r%d_%d", env.Seed, i), c); ok {
+				env.Emit(ce)
+			}
+		}
 	}
 	return nil
 }
